@@ -343,6 +343,7 @@ def simplify_under(c, known):
             facts.add(k)
 
     def simp(x):
+        x = ctor_matches(x)
         if x in facts:
             return TRUE
         if tnot(x) in facts:
@@ -382,7 +383,28 @@ def _numeric_root(t):
     return isinstance(t, tuple) and bool(t) and t[0] in NUMERIC_ROOT_TAGS
 
 
+_CTOR_KIND = {'some': 'Some', 'none': 'None', 'ok': 'Ok', 'err': 'Err'}
+
+
+def ctor_matches(c):
+    """`matches(Some(x), Some)` is true, `matches(None, Some)` false, .. (a pattern test on a constructor value), inside
+    and / or / not"""
+    if not isinstance(c, tuple) or not c:
+        return c
+    if c[0] == 'matches' and len(c) == 3 and isinstance(c[1], tuple) and c[1] and c[1][0] in _CTOR_KIND and c[2] in _CTOR_KIND.values():
+        return TRUE if _CTOR_KIND[c[1][0]] == c[2] else FALSE
+    if c[0] == 'not' and len(c) == 2:
+        x = ctor_matches(c[1])
+        return tnot(x) if x is not c[1] else c
+    if c[0] in ('and', 'or') and len(c) == 2:
+        xs = [ctor_matches(x) for x in c[1]]
+        if any(x is not y for x, y in zip(xs, c[1])):
+            return tand(*xs) if c[0] == 'and' else tor(*xs)
+    return c
+
+
 def ite(c, t, e):
+    c = ctor_matches(c)
     if c == TRUE:
         return t
     if c == FALSE:
